@@ -41,6 +41,15 @@ func runC19(c *Ctx, tier string) {
 	}
 	c19Lints(c, r)
 	c19Arpa(c, r)
+	// premise of every per-lint rule of this property: the verdict is computed on the
+	// object as parsed and on immutable tables — no lint method (any lint may run
+	// earlier in the same pass) writes memory reachable from the linted object or a
+	// package-level variable (C05 rules 1-2)
+	{
+		csP := BuildCensus(c)
+		c05Effects(c, r, csP, NewEffects(c))
+	}
+	cnIsIPTable(c, r)
 	r.Finish()
 }
 
